@@ -326,3 +326,84 @@ Definition check_case (k : cfg * (Z * Z * Z) * op * (Z * Z * Z) * outcome * list
   let (s', r) := run_op c x (mkst o0 t0 s0 []) in
   (ops s' =? o1) && (tr s' =? t1) && (sess s' =? s1) && outcome_eqb r out
   && obs_list_eqb (dedup (rev (log s'))) seen.
+
+(* ---- the thread based timeout of the sync stack: decorators._multiprocessing_timeout -------------
+   For SystemTransport / TelnetTransport, on windows and off the main thread the sync timeout_wrapper
+   runs the channel operation in the WORKER thread of a one-thread pool and the CALLER waits
+   timeout_ops for it.  When the time is up the caller closes the transport and raises ScrapliTimeout
+   from inside the pool's context.  [joins]: leaving that context waits for the worker
+   (`with ThreadPoolExecutor(...)`, i.e. shutdown(wait=True)) — a fact of the source, read from it on
+   every run (Gen_Timeouts.gen_pool_joins).  Where the worker is when the time is up ([wpos]) and
+   what its blocked read does once the transport is closed ([wake]) are inputs.
+
+   The result says when the call ENDS: [p_state] is the connection at that moment (for [Blocks]: the
+   state in which the call hangs), [p_late] what a thread that is still running the call's body does
+   to the connection AFTER the call has ended (None: there is no such thread / it writes nothing). *)
+Inductive wake :=
+| WakeLater               (* the blocked read comes back (raising) some time after close() *)
+| WakeNever.              (* close() does not interrupt it *)
+
+Inductive wpos :=
+| WPlain                            (* blocked in a read outside the timed loop: nothing swapped by the worker *)
+| WTimed (rd : Z) (reads : nat).    (* in _read_until_prompt_or_time: [reads] reads returned, the next one blocks *)
+
+Record pres := mkpres { p_state : st; p_out : outcome; p_late : option (st -> st) }.
+
+Definition pool_call (c : cfg) (joins : bool) (o : ov) (w : wpos) (k : wake) (s : st) : pres :=
+  match o with
+  | OvBad => mkpres s (Raised EType) None
+  | _ =>
+      let base := ops s in
+      let s0 := match o with OvVal v => set_ops v s | _ => s end in   (* timeout_modifier, calling thread: try *)
+      let s1 := tick PhIo s0 in                                       (* worker: write, read the echo *)
+      let prev := tr s1 in
+      let s2 := match w with
+                | WPlain => s1
+                | WTimed rd n => tick PhTimed (ticks PhTimed n (set_tr_direct (trunc_s rd) s1))
+                end in
+      (* the worker's way out of the timed loop once its read has come back: the loop's finally *)
+      let unwind (x : st) : st :=
+          match w with WPlain => x | WTimed _ _ => if fin c then set_tr_direct prev x else x end in
+      if joins then
+        match k with
+        | WakeNever => mkpres s2 Blocks None                  (* the pool's exit waits for ever *)
+        | WakeLater => mkpres (set_ops base (unwind s2)) (Raised ETimeout) None
+        end
+      else
+        (* ScrapliTimeout reaches the caller (timeout_modifier: finally) while the worker is where it was;
+           the worker unwinds when its read comes back or is let go *)
+        mkpres (set_ops base s2) (Raised ETimeout)
+               (match w with
+                | WPlain => None
+                | WTimed _ _ => if fin c then Some (set_tr_direct prev) else None
+                end)
+  end.
+
+(* the caller goes on after the call: assigns both timeouts through the driver's setters (open transport) *)
+Definition user_sets (c : cfg) (rc : option (Z * Z)) (s : st) : st :=
+  match rc with
+  | None => s
+  | Some (o, t) => fst (set_tr_driver c false t (set_ops o s))
+  end.
+
+Definition settled (c : cfg) (rc : option (Z * Z)) (r : pres) : st :=
+  let s1 := user_sets c rc (p_state r) in
+  match p_late r with Some f => f s1 | None => s1 end.
+
+Definition triple_eqb (a b : Z * Z * Z) : bool :=
+  let '(x, y, z) := a in let '(x', y', z') := b in (x =? x') && (y =? y') && (z =? z').
+
+(* one case of the correspondence run on the thread mechanism: configuration, [joins] as read from the
+   source, state before, the call (override, where the worker was, how its read wakes), and what was
+   observed: the state when the call ended (or in which it hung), outcome, observations up to there, the
+   user's assignments after the end (if any) and the state once no thread was left in the call's body *)
+Definition check_pool_case
+  (k : cfg * bool * (Z * Z * Z) * ov * wpos * wake * (Z * Z * Z) * outcome * list obs * option (Z * Z) * (Z * Z * Z)) : bool :=
+  let '(c, joins, (o0, t0, s0), o, w, wk, e, out, seen, rc, fin_state) := k in
+  let r := pool_call c joins o w wk (mkst o0 t0 s0 []) in
+  triple_eqb (core (p_state r)) e && outcome_eqb (p_out r) out
+  && obs_list_eqb (dedup (rev (log (p_state r)))) seen
+  && match p_out r with
+     | Blocks => true
+     | _ => triple_eqb (core (settled c rc r)) fin_state
+     end.
